@@ -786,7 +786,7 @@ fn main() {
         "a panic on both sides of a projected call counts as 'behaves alike' (the defect then belongs to the connection layer, C04)".into(),
     ];
     ctx.arm("c20", 1800.0);
-    let n = ctx.volume(200, 5_000, 1, 10);
+    let n = ctx.volume(200, 5_000, 4, 10);
     ctx.run_cases("net", n, |ctx, _idx, rng| {
         let moves = match ctx.tier {
             Tier::Miri => 60,
